@@ -139,6 +139,30 @@ func zzC11Session(h *StreamableHTTPHandler, id, user string) *sessionInfo {
 	return si
 }
 
+
+// zzAcceptAndType draws the request's Accept header and Content-Type: the documented preconditions of a POST are a
+// JSON body and an Accept header admitting both response types (JSON and SSE), whatever mode the handler runs in.
+func zzAcceptAndType(req *http.Request) (ok bool, want int) {
+	accepts := []string{"application/json, text/event-stream", "application/json", "text/event-stream", "", "*/*", "text/html"}
+	admits := []bool{true, false, false, false, true, false}
+	ai := vChoice("accept", len(accepts))
+	if accepts[ai] != "" {
+		req.Header.Set("Accept", accepts[ai])
+	} else {
+		req.Header.Del("Accept")
+	}
+	medias := []string{"application/json", "text/plain", ""}
+	mi := vChoice("contentType", 3)
+	zzC11.media = medias[mi]
+	switch {
+	case mi != 0:
+		return false, http.StatusUnsupportedMediaType
+	case !admits[ai]:
+		return false, http.StatusBadRequest
+	}
+	return true, 0
+}
+
 // H1: one request against a table holding session A (owned by an arbitrary user or nobody) and optionally B.
 func zzC11Table() {
 	env := &zzC11Env{timers: map[*time.Timer]*zzTimer{}, media: "application/json"}
@@ -205,6 +229,10 @@ func zzC11Table() {
 	}
 	env.initFails = vBool("initializeFails")
 	env.closeFails = vBool("closingTheConnectionFails")
+	gateOK, gateStatus := true, 0
+	if method == http.MethodPost {
+		gateOK, gateStatus = zzAcceptAndType(req)
+	}
 	if method == http.MethodPost && sid == "" {
 		switch vChoice("creation", 4) {
 		case 1:
@@ -228,6 +256,10 @@ func zzC11Table() {
 	}
 	userOK := target != nil && (target.userID == "" || (env.token != nil && env.token.UserID == target.userID))
 	switch {
+	case !gateOK:
+		// a POST that does not meet the documented preconditions reaches no session, creates none, changes nothing
+		vAssert(w.code == gateStatus && len(env.served) == 0 && env.minted == 0 && env.connects == 0 && len(h.sessions) == nBefore, "C12.precondition-violations-never-reach-a-session")
+		vReach("gate-refused")
 	case method == http.MethodPut:
 		vAssert(w.code == http.StatusMethodNotAllowed && len(env.served) == 0, "C11.unsupported-method-405")
 	case sid == "" && method != http.MethodPost:
@@ -376,11 +408,18 @@ func zzC11Stateless() {
 	if vBool("sendsSessionID") {
 		req.Header.Set(sessionIDHeader, "A")
 	}
+	gateOK, gateStatus := true, 0
+	if method == http.MethodPost {
+		gateOK, gateStatus = zzAcceptAndType(req)
+	}
 	w := &zzRec{hdr: http.Header{}}
 	h.ServeHTTP(w, req)
 	if method != http.MethodPost {
 		vAssert(w.code == http.StatusMethodNotAllowed && w.hdr.Get("Allow") == "POST" && len(env.served) == 0, "C11.stateless-405")
 		vReach("405")
+	} else if !gateOK {
+		vAssert(w.code == gateStatus && len(env.served) == 0 && env.connects == 0, "C12.precondition-violations-never-reach-a-session")
+		vReach("gate-refused")
 	} else {
 		vAssert(len(env.served) == 1 && env.served[0].SessionID == "" && env.served[0].Stateless, "C11.stateless-no-session-id")
 		vAssert(env.minted == 0 && w.hdr.Get(sessionIDHeader) == "", "C11.stateless-no-session-id")
